@@ -121,6 +121,11 @@ class IRelationLink(ABC, Generic[TDurationComponent]):
     def relation_type(self) -> RelationType:
         """:return: Type of relation to reference node."""
         raise InterfaceMethodException
+
+    @property
+    def has_reference(self) -> bool:
+        """:return: Boolean, whether this link references any node."""
+        return self.reference_node is not None
     # endregion
 
     # region Interface Methods
@@ -286,7 +291,7 @@ class IRelationComponent(ABC, Generic[TDurationComponent]):
     @property
     def has_relation(self) -> bool:
         """:return: Boolean, whether relation link is established."""
-        return self.relation_link.reference_node is not None
+        return self.relation_link.has_reference
     # endregion
 
 
@@ -383,6 +388,11 @@ class MultiRelationLink(IRelationLink[TCircuitOperation], Generic[TCircuitOperat
     def relation_type(self) -> RelationType:
         """:return: Type of relation to reference node."""
         return self._relation_type
+
+    @property
+    def has_reference(self) -> bool:
+        """:return: Boolean, whether this link references any node (does not require evaluating end-times)."""
+        return len(self._reference_nodes) > 0
     # endregion
 
     # region Interface Methods
